@@ -737,6 +737,20 @@ def _len_minus_count(F, fn, iv, a, b):
     da, db = to_call(la), to_call(lb)
     if not da or not db or da[0] != 'call' or db[0] != 'call':
         return None
+    # min(count, anything) <= count: look through Ord::min to the operand that is a count
+    hops_ = 0
+    while re.search(r'cmp::min$|Ord::min$', strip_args(cdef(db[2]))) and hops_ < 3:
+        hops_ += 1
+        nxt = None
+        for x in db[2]['args']:
+            lx = op_local(x)
+            dx = to_call(lx) if lx is not None else None
+            if dx and dx[0] == 'call' and re.search(r'Iterator::count$|cmp::min$|Ord::min$', strip_args(cdef(dx[2]))):
+                nxt = dx
+                break
+        if nxt is None:
+            return None
+        db = nxt
     if not re.search(r'::len$', strip_args(cdef(da[2]))) or not re.search(r'Iterator::count$', strip_args(cdef(db[2]))):
         return None
     base = iv.canon(da[2]['args'][0])
@@ -893,6 +907,41 @@ def _split_at_len_minus(fn, iv, base, mid):
     return None
 
 
+def _element_counter(fn, iv, a, b, opty):
+    """D8: `n += 1` for a counter that starts at the literal 0 and is only ever incremented by one, in a function that walks
+    an iterator with next(): one increment per element at most, and no sequence has more than isize::MAX elements, so a
+    64-bit (or wider) counter cannot overflow"""
+    for x, y in ((a, b), (b, a)):
+        if not (y['k'] == 'const' and y.get('int') == '1' and x['k'] in ('copy', 'move') and not x['pl']['p']):
+            continue
+        if opty(x) not in ('u64', 'i64', 'usize', 'isize', 'u128', 'i128'):
+            continue
+        l = x['pl']['l']
+        # through a copy of the counter
+        d0 = iv.defs.defs.get(l, [])
+        if len(d0) == 1 and d0[0][0] == 'assign' and d0[0][2]['rv']['r'] == 'use' and d0[0][2]['rv']['op']['k'] in ('copy', 'move') and not d0[0][2]['rv']['op']['pl']['p']:
+            l = d0[0][2]['rv']['op']['pl']['l']
+        ds = iv.defs.defs.get(l, [])
+        if len(ds) != 2 or any(d[0] != 'assign' for d in ds):
+            continue
+        init = [d for d in ds if d[2]['rv']['r'] == 'use' and d[2]['rv']['op']['k'] == 'const' and d[2]['rv']['op'].get('int') == '0']
+        step = [d for d in ds if d not in init]
+        if len(init) != 1 or len(step) != 1:
+            continue
+        rv = step[0][2]['rv']
+        # counter := (checked sum).0  where the checked sum is this very addition
+        ok = False
+        if rv['r'] == 'use' and rv['op']['k'] in ('copy', 'move') and rv['op']['pl']['p'] and isinstance(rv['op']['pl']['p'][0], dict) and rv['op']['pl']['p'][0].get('f') == 0:
+            dd = iv.defs.defs.get(rv['op']['pl']['l'], [])
+            if len(dd) == 1 and dd[0][0] == 'assign' and dd[0][2]['rv']['r'] == 'bin' and dd[0][2]['rv']['bop'] == 'AddWithOverflow':
+                ok = True
+        if not ok:
+            continue
+        if any(re.search(r'Iterator::next$', strip_args(cdef(tt))) for _, tt in fn.calls()) and fn.has_loop():
+            return 'D8: a 64-bit-or-wider counter that starts at 0 and is incremented by one per element of an iterator cannot overflow (at most isize::MAX elements)'
+    return None
+
+
 def auto_discharge(F, site, iv=None):
     """returns reason string if the site provably cannot fire, else None"""
     t = site.term
@@ -914,6 +963,10 @@ def auto_discharge(F, site, iv=None):
         if r:
             return r
         r = _minus_min_of_self(fn, iv, t['ops'][0], t['ops'][1])
+        if r:
+            return r
+    if site.kind == 'assert:Overflow:Add':
+        r = _element_counter(fn, iv, t['ops'][0], t['ops'][1], opty)
         if r:
             return r
     if site.kind.startswith('assert:Overflow:'):
